@@ -25,6 +25,9 @@ TEXT = {
  "C05": {"ref": "DESIGN.md §7 C05", "technique": "Lean 4 theorems (kernel-decided mask table, bit-trick lemma by induction on width, prefix iff) + exhaustive correspondence on masks and perturbations",
          "text": "Proved: _is_mask accepts all 66 mask/wildcard values (kernel-decided over the whole table) and is exactly 'the adjacent-bit difference word has at most one bit set' for every integer (bit trick proved for every width); should_anonymize is false for masks and members of preserved networks; for every preserved network (registered as a pinned prefix) outside stays outside under Ffull and Gfull. The characterisation 'at most one transition iff ones-then-zeros or zeros-then-ones' (the direction that non-masks are anonymized) and the verbatim return in the text layer are validated exhaustively on all masks and one-bit perturbations, not yet proved.",
          "note": IPNOTE},
+ "C18": {"ref": "DESIGN.md §7 C18", "technique": "Lean 4 theorem by induction over the plaintext; table side conditions decided by the kernel on regenerated tables; correspondence + independent decoder",
+         "text": "Proved for all plaintexts over 0..255 of any length and every salt (None, empty, any alphabet character, any other string): encrypt yields a string that passes the validity check and decrypts to the plaintext, under the hypothesis the proof forces (plaintext non-empty, or a salt character with three fillers); decrypt of ANY string ends in a result or ValueError, never KeyError/IndexError (decrypt_total). The excluded corner is kernel-evaluated and recorded as known finding.",
+         "note": "Tables FAMILY/ENCODING/EXTRA/_fixedc are regenerated from netconan/utils/juniper_secrets.py on every run and the kernel re-decides the side conditions (1792-case row check, alphabet facts); the hand-written model of the two functions is tied to the code by exhaustive/seeded correspondence. Plaintext characters above 255 are outside the property."},
  "C17": {"ref": "DESIGN.md §7 C17", "technique": "Lean 4 invariant (graph of the map + key uniqueness) over all histories + correspondence on dump_to_file and --dump-ip-map",
          "text": "Proved for every history on a constructed anonymizer: the dump (full-length memo entries) contains every anonymized address with exactly the image returned, lists no original and no replacement twice, and every listed pair satisfies v = Ffull k (both the B = 0 and the B > 0 caching path).",
          "note": IPNOTE},
